@@ -14,14 +14,36 @@ Definition cits_ok (words : list elem) (cits : list (nat * tok)) : Prop :=
   forall i t, In (i, t) cits -> nth_error words i = Some (T t).
 
 (* regex facts about the extractor patterns that the offset arithmetic relies on:
-   a short-form citation token ends with its page group; stop-word tokens carry
+   a short-form citation token carries its page group (that it ENDS with it is no longer assumed:
+   false for 11 extractors, Proofs/ShortPage.v; the repaired code checks it); stop-word tokens carry
    the stop_word group; a citation token has an edition from a known source *)
 Definition suffix (p s : str) : Prop := exists r, s = r ++ p.
+
+Lemma suffixb_spec p s : suffixb p s = true <-> suffix p s.
+Proof.
+  unfold suffixb, suffix. rewrite prefixb_spec. split.
+  - intros [r Hr]. exists (rev r). rewrite <- (rev_involutive s), Hr, rev_app_distr, rev_involutive.
+    reflexivity.
+  - intros [r Hr]. exists (rev r). rewrite Hr, rev_app_distr. reflexivity.
+Qed.
+
+(* the prefix _extract_shortform_citation passes to extract_pin_cite (as repaired): the page group
+   when the token ends with it, the empty string otherwise, None when the group is None *)
+Lemma short_prefix (d : str) (prefix : option str) :
+  match prefix with Some pg => if suffixb pg d then Some pg else Some [] | None => None end = None \/
+  exists pg, match prefix with Some pg => if suffixb pg d then Some pg else Some [] | None => None end
+             = Some pg /\ suffix pg d.
+Proof.
+  destruct prefix as [pg|]; [right|left; reflexivity].
+  destruct (suffixb pg d) eqn:E.
+  - exists pg. split; [reflexivity|]. apply suffixb_spec. exact E.
+  - exists []. split; [reflexivity|]. exists d. symmetry. apply app_nil_r.
+Qed.
 
 Definition tok_ok (source_of : nat -> nat) (t : tok) : Prop :=
   match t_kind t with
   | KCitation =>
-      (t_short t = true -> exists pg, glookup g_page (t_groups t) = Some (Some pg) /\ suffix pg (t_data t)) /\
+      (t_short t = true -> exists pg, glookup g_page (t_groups t) = Some (Some pg)) /\
       (t_short t = false ->
          exists i, In i (match t_exact t with [] => t_var t | l => l end) /\ (source_of i <= 2)%nat)
   | KStopWord => exists v, glookup g_stop_word (t_groups t) = Some v
